@@ -206,7 +206,7 @@ var ianaLabels = map[string]int64{
 
 func runC13(r *Report, tier string) {
 	P := r.P
-	r.rule("R13.1", "the validator's per-entry paths, lowered to a table label -> conditions on the way to acceptance, satisfy RFC 9052 3.1 / RFC 9338: alg: Algorithm|int|tstr; crit: protected only, crit helper succeeded; content type / typ: uint, or tstr non-empty without leading/trailing space and with exactly one '/'; kid, IV, Partial IV: bstr; IV and Partial IV exclude each other; 7/11: unprotected only, countersignature value predicate; 9/12: unprotected only, bstr; every label normalises and is not a duplicate. The value predicates are identified and checked by their kind tables (int: ten integer kinds; uint: unsigned kinds, signed with >= 0; tstr; bstr); label constants equal their IANA values.")
+	r.rule("R13.1", "the validator's per-entry paths, lowered to a table label -> conditions on the way to acceptance, satisfy RFC 9052 3.1 / RFC 9338: alg: Algorithm|int|tstr; crit: protected only, crit helper succeeded; content type / typ: uint, or tstr non-empty without leading/trailing space and with exactly one '/'; kid, IV, Partial IV: bstr; IV and Partial IV exclude each other; 7/11: unprotected only, countersignature value predicate; 9/12: unprotected only, bstr; every label normalises and is not a duplicate. The value predicates are identified and checked by their kind tables (int: ten integer kinds; uint: unsigned kinds, signed with >= 0; tstr: string; bstr: non-nil []byte - a nil slice would be emitted as CBOR null); label constants equal their IANA values.")
 	r.rule("R13.2", "the four bucket (un)marshalers reach the same validator, protected ones with the constant true, unprotected ones with false, on every non-empty success path; every structure encoder carries ok(cross-bucket IV check) on its own Headers, the function the decoders use (R05.5).")
 	r.rule("R13.3", "uniqueness: every accepted entry has passed the duplicate test on the normalised label; decode side: DupMapKeyEnforcedAPF and IntDecConvertSigned (R05.1).")
 	r.rule("R13.4", "decode-side label typing: the raw label scan admits major types 0, 1, 3 only and refuses integers beyond int64.")
@@ -670,6 +670,8 @@ func mutC13() []mutant {
 	return []mutant{
 		{Name: "D2 re-created: hasLabel looks the label up with a bare key", File: "headers.go", Quick: true, Rule: "R13.6",
 			Old: "\t_, ok := lookupLabel(h, label)\n\treturn ok", New: "\t_, ok := h[label]\n\treturn ok"},
+		{Name: "D5 re-created: the bstr predicate accepts a nil byte slice", File: "headers.go", Quick: true, Rule: "R13.1",
+			Old: "\tb, ok := v.([]byte)\n\treturn ok && b != nil", New: "\t_, ok := v.([]byte)\n\treturn ok"},
 		{Name: "kid arm also accepts text", File: "headers.go", Quick: true, Rule: "R13.1",
 			Old: "\t\t\tif !canBstr(value) {\n\t\t\t\treturn errors.New(\"header parameter: kid: require bstr type\")", New: "\t\t\tif !canBstr(value) && !canTstr(value) {\n\t\t\t\treturn errors.New(\"header parameter: kid: require bstr type\")"},
 		{Name: "crit allowed in the unprotected bucket", File: "headers.go", Rule: "R13.1",
